@@ -17,6 +17,8 @@ COMMON_ASSUMPTIONS = [
     "closed world: only code under /repo/valida mutates or subclasses valida objects; no monkey-patching",
     "field-type hints of vstatic/hints.py (each verified to name an existing class field on every run)",
     "abstract interpretation is path-insensitive except for isinstance / None / emptiness / membership / constant-flag narrowing and the is_concrete case split",
+    "a flag bound together with a value from one call result (`value, found = f(..)`) is assumed to be that value's found-flag: where the flag is tested true the value / its elements are taken not to be None (only affects the 'unpacking a possibly-None value' row)",
+    "a rule's own condition is a value condition or a combination (C05-C07 quantify over value-kind rules); a lone Key / Index condition as a rule's condition is outside these properties",
 ]
 SHAPE_ASSUMPTION = "recognised-form rules decide only expressions inside their vocabulary; anything else is reported as undecided in this file and is not a violation"
 
@@ -182,7 +184,7 @@ PROPERTIES = {
         assumptions=COMMON_ASSUMPTIONS + [SHAPE_ASSUMPTION],
     ),
     "C03": dict(
-        rules=[r_raise_c03, R.rule_kind, S2.rule_deleg, S2.rule_lockstep, r_pure_c03, SH.rule_tt_c01, SH.rule_once_c01],
+        rules=[r_raise_c03, R.rule_kind, S2.rule_deleg, S2.rule_lockstep, r_pure_c03, SH.rule_tt_c01, SH.rule_once_c01, SH.rule_chain],
         explanation=(
             "Clauses decided: (1) 'a part that does not apply to a node matches nothing rather than raising' - every operation reachable from DataPath.get_data / Data.get "
             "on a document-derived value, and every raise depending on one (container-kind checks of the parts, Data.__init__, key/index refusal), is covered by the per-node handler "
@@ -255,7 +257,7 @@ PROPERTIES = {
         assumptions=COMMON_ASSUMPTIONS + [SHAPE_ASSUMPTION],
     ),
     "C11": dict(
-        rules=[SG.rule_sig, SG.rule_ladder, SG.rule_tables_c11, SG.rule_conv, SH.rule_tt_c02, S2.rule_names, SG.rule_tokens],
+        rules=[SG.rule_sig, SG.rule_ladder, SG.rule_tables_c11, SG.rule_conv, SH.rule_tt_c02, S2.rule_names, SG.rule_tokens, R.rule_c19_raises],
         explanation=(
             "Clauses decided: (1) every constructor stores its arguments the way the serialiser reads them (keyword / *args / **kwargs); (2) writer and reader "
             "ladders, evaluated for all constructor signatures, pick branches with compatible JSON shapes; (3) type-name tables are mutual inverses; "
@@ -265,7 +267,7 @@ PROPERTIES = {
         assumptions=COMMON_ASSUMPTIONS + [SHAPE_ASSUMPTION],
     ),
     "C12": dict(
-        rules=[S2.rule_guarded, r_pure_ser("R-PURE/C12", ["to_part_specs", "simplify"], ["path"]), S2.rule_names, SH.rule_tt_c02],
+        rules=[S2.rule_guarded, r_pure_ser("R-PURE/C12", ["to_part_specs", "simplify"], ["path"]), S2.rule_names, SH.rule_tt_c02, R.rule_c19_raises],
         explanation=(
             "Clause decided: a primitive or bare-type part spec is emitted only under guards that establish its meaning, otherwise serialisation raises - simplify() emits the 'value' argument "
             "only for a single Key/Index equal_to condition of the right part class (full guard sets checked), to_part_specs never reads a condition's argument directly, emits a bare type only "
@@ -275,7 +277,7 @@ PROPERTIES = {
         assumptions=[SHAPE_ASSUMPTION] + COMMON_ASSUMPTIONS[:2],
     ),
     "C13": dict(
-        rules=[S2.rule_fields, SG.rule_castinv, r_pure_ser("R-PURE/C13", ["rule_to_json", "schema_to_json"], ["rule", "schema"]), S2.rule_sort, S2.rule_eq_const_fields],
+        rules=[S2.rule_fields, SG.rule_castinv, r_pure_ser("R-PURE/C13", ["rule_to_json", "schema_to_json"], ["rule", "schema"]), S2.rule_sort, S2.rule_eq_const_fields, R.rule_c19_raises],
         explanation=(
             "Clauses decided: (1) Rule.to_json_like emits only JSON-typed fields (condition / path through their own serialisers, cast as type names), the keys it writes are the keys from_spec reads, "
             "schemas map their rule list element-wise; (2) by finite evaluation over CAST_LOOKUP, what the writer emits for each cast parses back to the same cast; "
@@ -334,21 +336,21 @@ PROPERTIES = {
         assumptions=COMMON_ASSUMPTIONS + [SHAPE_ASSUMPTION],
     ),
     "C19": dict(
-        rules=[RF.rule_reflect, R.rule_c19_raises, P.rule_newinit, SG.rule_tokens],
+        rules=[RF.rule_reflect, R.rule_c19_raises, P.rule_newinit, SG.rule_tokens, S2.rule_swallow],
         explanation=(
             "Exception-effect analysis of the ten parse entry points with the spec as tainted input of unknown JSON type: every operation on a "
             "spec-derived value (attribute / method access, subscripts, next(iter()), unpacking, table lookups keyed by spec tokens) and every "
             "explicit raise is an obligation; what can escape a parser must be a Malformed* error, TypeError, ValueError or a KeyError naming a "
             "mandatory rule field - never AttributeError / IndexError / StopIteration / RuntimeError / RecursionError.  Reflection on spec tokens "
             "must be bounded by a constant table whose entries are all DSL names (R-REFLECT); __init__ must not re-initialise an operand (R-NEWINIT: "
-            "the RecursionError route); the operator branch must match the whole key (R-TOKENS).  The 'definite errors are rejected' half is decided only for unknown / surplus tokens; arity errors are left to Python's call protocol."
+            "the RecursionError route); the operator branch must match the whole key (R-TOKENS); errors raised once a data-path argument has been recognised must not be of a class the condition parser's 'is this a path?' probe swallows (R-SWALLOW).  The 'definite errors are rejected' half is decided only for unknown / surplus tokens; arity errors are left to Python's call protocol."
         ),
         assumptions=COMMON_ASSUMPTIONS,
     ),
 }
 
 PROPERTIES["C20"] = dict(
-    rules=[H.rule_taint, H.rule_balance, H.rule_defassign, H.rule_order, H.rule_always, r_pure_c20],
+    rules=[H.rule_taint, H.rule_balance, H.rule_defassign, H.rule_order, H.rule_always, r_pure_c20, H.rule_nodekey],
     explanation=(
         "Clauses decided: (1) in write_tree_html every schema-derived value (nested_tree, _path and everything derived) reaches the returned string only through html.escape "
         "(taint analysis of every assignment that flows into the output; sanitiser html.escape; recursive call by induction); (2) on every path through the per-child body the "
